@@ -27,7 +27,7 @@ BCD_MN = ("DADL", "DSBL")
 
 
 def states(thorough: bool, seed: int) -> List[Tuple[Tuple[int, int, int], Dict[str, int], int]]:
-    st = [(BPX[0], REGS[0], 1), (BPX[1], REGS[1], 2), (BPX[2], REGS[2], 3 + (seed & 0x3F))]
+    st = [(BPX[0], REGS[0], 1), (BPX[1], REGS[1], 2), (BPX[2], REGS[2], 3)]      # data never depends on the seed: every quick run explores a subset of thorough
     return st if thorough else st[:2] + ([st[2]] if seed % 2 else [])
 
 
